@@ -677,3 +677,47 @@ pub fn chosen_s1_triple(rng: &mut Prng, p: Params) -> Triple {
     let norm: i64 = s1.iter().map(|x| x * x).sum::<i64>() + 1;
     Triple { msg, sig, pk, norm, s1_max: 6144, note: format!("Z5 chosen s1, pattern {}, s2 = {}x^{}", pattern, sign, j) }
 }
+
+// ---------------------------------------------------------------------------
+// Z6: turning a HashToPoint disagreement into a verdict disagreement. Given a
+// (salt, msg) on which the verifier's hash point differs from the reference's at
+// the index set D, build a triple with s2 = 1, s1 = 0 on D and norm exactly
+// floor(beta^2): the specification accepts it; a verifier that computes a
+// different c sees a non-zero s1 on D, a norm above the bound, and rejects.
+// ---------------------------------------------------------------------------
+
+pub fn flip_triple(p: Params, rng: &mut Prng, salt: &[u8], msg: &[u8], zero_idx: &[usize]) -> Option<Triple> {
+    let n = p.n;
+    let mut sm = salt.to_vec();
+    sm.extend_from_slice(msg);
+    let c = hash_to_point(&sm, n);
+    let free: Vec<usize> = (0..n).filter(|i| !zero_idx.contains(i)).collect();
+    if free.len() < 8 {
+        return None;
+    }
+    for _ in 0..50 {
+        let budget = p.bound - 1; // s2 = 1 contributes 1
+        let mut s1 = vec![0i64; n];
+        let sigma1 = ((budget as f64) * 0.97 / (free.len() - 4) as f64).sqrt();
+        let mut n1 = 0i64;
+        for &i in &free[..free.len() - 4] {
+            let v = gaussish(rng, sigma1).clamp(-6144, 6144);
+            s1[i] = v;
+            n1 += v * v;
+        }
+        let four = match four_squares(rng, budget - n1, 6144) {
+            Some(f) => f,
+            None => continue,
+        };
+        for k in 0..4 {
+            s1[free[free.len() - 4 + k]] = four[k];
+        }
+        let mut s2 = vec![0i64; n];
+        s2[0] = 1;
+        let h: Vec<i64> = (0..n).map(|i| modq(c[i] - s1[i])).collect();
+        let sig = codec::sig_encode(p, salt, &s2)?;
+        let pk = codec::pk_encode(p, &h);
+        return Some(Triple { msg: msg.to_vec(), sig, pk, norm: p.bound, s1_max: s1.iter().map(|x| x.abs()).max().unwrap_or(0), note: format!("Z6 flip triple: s1 = 0 on {} indices where the hash points differ", zero_idx.len()) });
+    }
+    None
+}
